@@ -66,13 +66,11 @@ theorem compositeAct_avoids (hF : ∀ m, ¬ E (.fail m)) (c : Cfg) (parent : J) 
   refine AllRets.ite (fun _ => ?_) (fun _ => ?_) <;>
   · refine AllRets.mbind (AllRets.trivial _) (fun r _ => ?_)
     refine AllRets.mbind (AllRets.trivial _) (fun st _ => ?_)
-    split
-    · exact avoidsSnd_ok _
-    · exact avoidsSnd_ok _
-    · exact avoidsSnd_fail hF _ _
-    · split
-      · exact avoidsSnd_ok _
-      · exact avoidsSnd_fail hF _ _
+    split <;>
+      first
+      | exact avoidsSnd_ok _
+      | exact avoidsSnd_fail hF _ _
+      | (split <;> first | exact avoidsSnd_ok _ | exact avoidsSnd_fail hF _ _)
 
 theorem compositeTail_avoids (hF : ∀ m, ¬ E (.fail m)) (c : Cfg) (parent : J) (observed : ObjMap) (resp : CompResp) (memo : Memo) :
     AvoidsSnd E (compositeTail c parent observed resp memo) := by
@@ -82,17 +80,17 @@ theorem compositeTail_avoids (hF : ∀ m, ¬ E (.fail m)) (c : Cfg) (parent : J)
   | error e => exact .ret _ (fun e' h => by cases h; exact hp e rfl)
   | ok pd => exact compositeAct_avoids hF ..
 
-theorem customizeResponse_avoids (hF : ∀ m, ¬ E (.fail m)) (parent : J) (cached : CustCache) :
+theorem customizeResponse_avoids (hF : ∀ m, ¬ E (.fail m)) (hT : ∀ n, ¬ E (.tooMany n)) (parent : J) (cached : CustCache) :
     Avoids E (customizeResponse parent cached) := by
   unfold customizeResponse
   pe_auto
 
-theorem getRelatedObjects_avoids (hF : ∀ m, ¬ E (.fail m)) (enabled parentNamespaced : Bool) (relRes : List ChildRes)
+theorem getRelatedObjects_avoids (hF : ∀ m, ¬ E (.fail m)) (hT : ∀ n, ¬ E (.tooMany n)) (enabled parentNamespaced : Bool) (relRes : List ChildRes)
     (cache : Cache) (parent : J) (cached : CustCache) :
     Avoids E (getRelatedObjects enabled parentNamespaced relRes cache parent cached) := by
   unfold getRelatedObjects
   refine avoids_ite (fun _ => avoids_pure _) (fun _ => ?_)
-  refine avoids_mbind (customizeResponse_avoids hF _ _) (fun bc => ?_)
+  refine avoids_mbind (customizeResponse_avoids hF hT _ _) (fun bc => ?_)
   refine avoids_mbind (avoids_ofExcept hF _) (fun rules => ?_)
   refine avoids_mbind (avoids_foldlM _ _ _ ?_) (fun m => avoids_pure _)
   intro m orule _
@@ -190,7 +188,7 @@ theorem syncParentObjectFull_avoids (hF : ∀ m, ¬ E (.fail m)) (hT : ∀ n, ¬
     | error e => exact .ret _ (fun e' he => by cases he; exact hobs e rfl)
     | ok observed =>
       dsimp only
-      refine AllRets.mbind (getRelatedObjects_avoids hF ..) (fun rel hrel => ?_)
+      refine AllRets.mbind (getRelatedObjects_avoids hF hT ..) (fun rel hrel => ?_)
       cases rel with
       | error e => exact .ret _ (fun e' he => by cases he; exact hrel e rfl)
       | ok rc =>
@@ -260,9 +258,16 @@ theorem syncDecoratorObject_avoids (hF : ∀ m, ¬ E (.fail m)) (c : DCfg) (cach
   | ok parent' =>
     dsimp only
     refine AllRets.ite (fun _ => .ret _ (fun e he => by cases he)) (fun _ => ?_)
-    refine AllRets.mbind (getRelatedObjects_avoids hF ..) (fun rel hrel => ?_)
+    -- a 429 of the customize hook reaches this point as `tooMany` and is turned into a plain failure here:
+    -- `getRelatedObjects` avoids every error in `E` other than `tooMany`
+    refine AllRets.mbind (getRelatedObjects_avoids (E := fun e => E e ∧ ∀ n, e ≠ .tooMany n)
+      (fun m hm => hF m hm.1) (fun n hn => hn.2 n rfl) ..) (fun rel hrel => ?_)
     cases rel with
-    | error e => exact .ret _ (fun e' he => by cases he; exact hrel e rfl)
+    | error e =>
+      cases e with
+      | tooMany n => exact .ret _ (fun e' he => by cases he; exact hF _)
+      | fail m => exact .ret _ (fun e' he => by cases he; exact hF _)
+      | panic m => exact .ret _ (fun e' he => by cases he; exact fun hE => hrel _ rfl ⟨hE, fun n hn => by cases hn⟩)
     | ok rc =>
       dsimp only
       refine AllRets.mbind (callHookDecorator_avoids hF ..) (fun hk hhk => ?_)
@@ -526,7 +531,7 @@ theorem C13_reject_no_write_decorator (c : DCfg) (cache : Cache) (rule : ParentR
     refine StopsAfter.bind_noG (getRelatedObjects_calls (P := fun r => ∀ x, ¬ BadDecAnswer r x)
       (by intro q; exact customize_not_badDec q) ..) (fun rel => ?_)
     cases rel with
-    | error e => exact .ret _
+    | error e => cases e <;> exact .ret _
     | ok rc =>
       dsimp only
       refine StopsAfter.bind (callHookDecorator_stops ..) (fun resp => ?_) ?_
